@@ -466,6 +466,9 @@ def run_family(ctx, shapes, *, names, allow, mc_invariants, mc_properties, per_s
     for scn, raw in zip(scenarios, raws):
         if raw.get("error"):
             raise tlc.MachineryError("runtime harness: %s\nscenario: %s" % (raw["error"], json.dumps(scn)[:1500]))
+        if not raw.get("events"):
+            # every script calls something: a run that recorded nothing was not a run
+            raise tlc.MachineryError("runtime harness recorded no event at all\nscenario: %s" % json.dumps(scn)[:1500])
         c, ev = normalize(scn, raw)
         items.append((c, ev))
         kept.append(scn)
